@@ -6,6 +6,7 @@ import (
 	"go/parser"
 	"go/token"
 	"go/types"
+	"os"
 	"sort"
 	"strings"
 
@@ -1031,6 +1032,9 @@ func (t *FnTrans) siteOrdinal(s *SiteSpec, kind string, in ssa.Instruction) int 
 			case *ssa.Store:
 				if kind == "store" {
 					text, ok = t.srcText(x.Pos()), true
+					if os.Getenv("GOVC_DEBUG_SITES") != "" {
+						fmt.Fprintf(os.Stderr, "site-debug store text=%q pos=%v\n", text, t.W.fset.Position(x.Pos()))
+					}
 				}
 			case *ssa.MapUpdate:
 				if kind == "mapupdate" {
@@ -1078,4 +1082,25 @@ func siteTextMatch(kind, text, want string) bool {
 		return len(text) > len(want) && text[len(want)] == '('
 	}
 	return true
+}
+
+// siteMatchesInstr: does the site specification select this instruction?
+func (t *FnTrans) siteMatchesInstr(s *SiteSpec, in ssa.Instruction) bool {
+	kind := ""
+	switch in.(type) {
+	case *ssa.Call:
+		kind = "call"
+	case *ssa.Store:
+		kind = "store"
+	case *ssa.MapUpdate:
+		kind = "mapupdate"
+	case *ssa.Return:
+		kind = "return"
+	case *ssa.Lookup:
+		kind = "mapread"
+	}
+	if kind == "" || kind != s.Kind {
+		return false
+	}
+	return t.siteOrdinal(s, kind, in) == s.Ordinal
 }
